@@ -23,8 +23,8 @@ logging.disable(logging.CRITICAL)
 MODEL = 'tags_tlv'
 COQ = {
     'C01': dict(gen=['TlvK'], targets=['Proofs/T2TWrite.vo', 'Proofs/T2TRetry.vo', 'Proofs/T1T.vo', 'Proofs/T1TRetry.vo', 'Bridge/TlvK.vo'], props=['C01_tlv']),
-    'C02': dict(gen=[], targets=['Proofs/T2TCut.vo', 'Proofs/T2TRetry.vo', 'Proofs/T1T.vo', 'Proofs/T1TRetry.vo'], props=['C02_tlv']),
-    'C03': dict(gen=['TlvFmtK'], targets=['Proofs/T2TFrame.vo', 'Proofs/T1T.vo', 'Bridge/TlvFmtK.vo'], props=['C03_tlv']),
+    'C02': dict(gen=['TlvK'], targets=['Proofs/T2TCut.vo', 'Proofs/T2TRetry.vo', 'Proofs/T1T.vo', 'Proofs/T1TRetry.vo', 'Bridge/TlvK.vo'], props=['C02_tlv']),
+    'C03': dict(gen=['TlvK', 'TlvFmtK'], targets=['Proofs/T2TFrame.vo', 'Proofs/T2Sector.vo', 'Proofs/T1T.vo', 'Bridge/TlvK.vo', 'Bridge/TlvFmtK.vo'], props=['C03_tlv']),
 }
 TRUSTED = ['Coq 8.16.1 kernel (vm_compute only in the non-vacuity examples and refutation witnesses)',
            'translate/kspec_tags_tlv.py + py2coq.py (kernel translator for get_lock_byte_range / get_rsvd_byte_range / get_capacity of tt1.py, tt2.py)',
@@ -47,6 +47,12 @@ _A = ['Type 1/2: the on-demand loading of the memory reader (16-byte READ / RALL
       'not fit the data area / capacity is not reported); on a tree without them the correspondence on damaged layouts and on '
       'some cut states breaks',
       'Type 1: memory of at most 2048 bytes (16 segments)',
+      'Type 2 tags with several sectors: the memory models use absolute addresses; Model/T2Sector.v + Props/C03_tlv.v show that '
+      'sector_select keeps _current_sector equal to the tag\'s sector under every outcome of a SECTOR SELECT sequence, each real '
+      'sector_select call is compared with that model, and the harness checks the equality at every READ / WRITE.  A garbled or '
+      'NAKed packet is taken as not acted upon by the tag; a lost second packet cannot be told from the passive acknowledgement '
+      '(inherent in the protocol) and is not injected.  Read failures while a write loads more memory (sector select / READ '
+      'faults outside synchronize) are monitor-only',
       'Type 1/2: NXP / Broadcom product classes (NTAG203/213/215/216, Ultralight, Topaz, Topaz-512) are reached through '
       'nfc.tag.activate and share the generic read/write code; their read-protection / password features are not exercised']
 ASSUMPTIONS = {'C01': _A,
@@ -374,6 +380,70 @@ def gen_end_layout(rng, kind, remain, ctl=False):
     L.mem = mem
     assert L.cap_expected == remain and L.off >= L.first
     return L
+
+
+def gen_boundary_layout(rng, kind, usable):
+    """a well-formed layout with exactly `usable` non-reserved bytes from the NDEF TLV's tag byte to the end of the declared
+    data area (get_capacity's count; 257 is where the 3-byte length accounting starts), and physical memory behind it"""
+    L = Layout()
+    L.kind = kind
+    if kind == 't2':
+        L.first, L.unit = 16, 4
+        size8 = (usable + rng.randrange(0, 24) + 7) // 8
+        L.dend = 16 + 8 * size8
+        total = L.dend + 4 * rng.choice([1, 2, 4, 6])
+        L.R = set()
+        L.off = L.dend - usable
+        L.version = None
+    else:
+        L.first, L.unit = 12, 8
+        L.hr = bytes([rng.choice([0x12, 0x12, 0x14]), rng.choice([0x4C, 0x00])])
+        L.dend = 8 * ((usable + 36 + rng.randrange(0, 17) + 7) // 8)      # reserved 104..127 lie inside
+        total = 512 if L.dend < 512 else 1024
+        L.R = set(range(104, 128))
+        L.off = L.dend - 24 - usable
+    mem = bytearray(rng.randrange(1, 256) for _ in range(total))
+    o = L.first
+    if kind != 't2' and L.off >= 22 and rng.random() < 0.6:      # the Topaz-512 control TLVs (they repeat 120..127)
+        mem[12:22] = bytes.fromhex('0103F230330203F00203')
+        o = 22
+    for a in range(o, L.off):
+        mem[a] = 0
+    mem[L.off], mem[L.off + 1] = 3, 0
+    L.oneway = set(range(L.dend, min(total, L.dend + 3))) if kind == 't2' else set()
+    f = L.free_after_tag()
+    L.cap_expected = (f + 1) - (4 if f + 1 > 256 else 2)
+    if kind == 't2':
+        mem[0:10] = bytes([rng.choice([1, 2, 5, 7]), 2, 3, 0x88, 5, 6, 7, 8, 0x0C, 0x48])
+        mem[10:12] = b'\x00\x00'
+        mem[12:16] = bytes([0xE1, 0x10, size8, 0x00])
+    else:
+        mem[0:8] = bytes([1, 2, 3, 4, 5, 6, 7, 0])
+        mem[8:12] = bytes([0xE1, 0x10, L.dend // 8 - 1, 0x00])
+    L.mem = mem
+    assert f + 1 == usable and L.off >= L.first, (kind, usable, L.off, L.dend)
+    return L
+
+
+def capacity_boundary_cases(ck, bt, pid, rng, kind, reps):
+    """the 1-byte / 3-byte length boundary seen from the capacity side: 250..262 usable bytes, messages of exactly the
+    reported capacity and one more (and 254/255), on an empty and on a full tag"""
+    for usable in range(250, 263):
+        for _ in range(reps):
+            L = gen_boundary_layout(rng, kind, usable)
+            check_info(ck, bt, L)
+            for full in (False, True):
+                prev = bytearray(L.mem)
+                if full:
+                    L.put_message(prev, rnd(rng, L.cap_expected))
+                L1 = Layout()
+                L1.__dict__.update(L.__dict__)
+                L1.mem = prev
+                for n in sorted(set([254, 255, L.cap_expected - 1, L.cap_expected, L.cap_expected + 1])):
+                    if n <= L.cap_expected + 1:
+                        write_case(ck, bt, L1, rnd(rng, n), pid, rng)
+        ck.count('%s-usable-%d' % (kind, usable))
+    bt.flush()
 
 
 def end_of_area_cases(ck, bt, pid, rng, kind, reps):
@@ -894,6 +964,125 @@ def run_write_on(L, old, new):
     return run_write(L2, new)['sim'].log
 
 
+SS_KINDS = [(1, 'timeout'), (1, 'transmission'), (1, 'protocol'), (1, 'nak'), (2, 'transmission'), (2, 'protocol'), (2, 'nak')]
+
+
+def gen_sector_layout(rng, size8=None):
+    """Type 2 tag whose data area reaches into the second (and third) 1K sector; lock bytes directly behind the data area"""
+    L = Layout()
+    L.kind, L.first, L.unit = 't2', 16, 4
+    size8 = size8 or rng.choice([0x80, 0x80, 0x90, 0xC0, 0xFF])
+    L.dend = 16 + 8 * size8
+    total = L.dend + 4 * rng.choice([4, 8, 12])
+    L.version = None
+    mem = bytearray(rng.randrange(1, 256) for _ in range(total))
+    npad = rng.choice([0, 1, 2, 3])
+    for a in range(16, 16 + npad):
+        mem[a] = 0
+    L.off = 16 + npad
+    L.R = set()
+    mem[L.off], mem[L.off + 1] = 3, 0
+    L.oneway = set(range(L.dend, L.dend + 3))
+    f = L.free_after_tag()
+    L.cap_expected = (f + 1) - (4 if f + 1 > 256 else 2)
+    mem[0:10] = bytes([rng.choice([1, 2, 5, 7]), 2, 3, 0x88, 5, 6, 7, 8, 0x0C, 0x48])
+    mem[10:12] = b'\x00\x00'
+    mem[12:16] = bytes([0xE1, 0x10, size8, 0x00])
+    L.mem = mem
+    return L
+
+
+def sector_case(ck, bt, L, old, d1, j, packet, kind, op2, pid, rng):
+    """operations on ONE tag object of a Type 2 tag with more than one sector: tag.ndef.octets = d1 with the j-th SECTOR SELECT
+    sequence failing at packet 1 / 2 (timeout, transmission / protocol error, NAK; the tag does not act on a packet it did not
+    understand), then op2 = ('write', d2) or ('format', wipe).  Monitors: the library's _current_sector equals the tag's sector
+    whenever a READ / WRITE is sent; the byte-wise frame over all sectors; (C01) op2 succeeds and reads back.
+    Correspondence: every sector_select call against Model/T2Sector.v."""
+    mem = bytearray(L.mem)
+    L2 = Layout()
+    L2.__dict__.update(L.__dict__)
+    L2.mem = mem
+    L2.put_message(mem, old)
+    case = {'layout': L2.describe(), 'old': hx(old), 'sector': {'d1': hx(d1), 'j': j, 'packet': packet, 'kind': kind, 'op2': [op2[0], hx(op2[1]) if op2[0] == 'write' else op2[1]]}}
+    sim = L2.sim()
+    clf = FakeClf(sim)
+    tag = activate(clf)
+    clf.watch = tag
+    calls = []
+    orig = tag.sector_select
+
+    def wrapped(sector):
+        before = (tag._current_sector, sim.sector)
+        seq0 = clf._ss_seq
+        armed = clf._ss
+        try:
+            r = orig(sector)
+            res = 'ok %d' % r
+        except nfc.tag.TagCommandError:
+            res = 'err TagCommandError'
+            raise
+        finally:
+            if sector == before[0]:
+                o = 'done'
+            elif res.startswith('ok'):
+                o = 'done'
+            elif armed is not None and armed['at'] == seq0 + 1:
+                o = ('p1nak' if armed['kind'] == 'nak' else 'p1err') if armed['packet'] == 1 else ('p2answer' if armed['kind'] == 'nak' else 'p2err')
+            else:
+                o = 'p2answer' if sector * 256 >= sim.npages else 'p1nak'
+            calls.append(('ss %d %d %d %s' % (before[0], before[1], sector, o), '%s %d %d' % (res, tag._current_sector, sim.sector)))
+        return r
+    tag.sector_select = wrapped
+    if tag.ndef is None:
+        return 0
+    n_before = clf._ss_seq
+    if j:
+        clf.fault_ss(j, packet, kind)
+
+    def op1():
+        tag.ndef.octets = d1
+    r1 = classify(op1)
+    nseq = clf._ss_seq - n_before
+    clf._ss = None
+    out = {}
+
+    def o2():
+        if op2[0] == 'write':
+            tag.ndef.octets = op2[1]
+        else:
+            out['r'] = tag.format(wipe=op2[1])
+    r2 = classify(o2)
+    key = 'sector:p%d-%s' % (packet, kind) if j else 'sector:nofault'
+    if clf.sector_desync is not None:
+        ck.violation('t2:%s:desync' % key, 'a READ/WRITE (%s) was sent while the library believed sector %d and the tag was in sector %d' % (
+            clf.sector_desync[2], clf.sector_desync[0], clf.sector_desync[1]), case)
+    monitor_frame(ck, L2, sim, 'operations around a failed SECTOR SELECT', key, case)
+    if pid == 'C01' and op2[0] == 'write':
+        fr, _c, foct = fresh_view(L2, sim.mem)
+        if r2 != 'ok' or foct != op2[1]:
+            ck.violation('t2:%s:second-op' % key, 'the operation after a failed SECTOR SELECT %s' % ('fails with ' + r2 if r2 != 'ok' else 'does not read back'), dict(case, fresh=fr[:80]))
+    for line, impl in calls:
+        bt.add(line, impl, 't2-sector-select', case)
+    ck.case(('t2', 'sector', hx(mem[:64]), hx(d1[:8]), j, packet, kind, op2[0]), True,
+            {'tag': 't2', 'data_area_end': L.dend, 'history': 'write %d bytes, SECTOR SELECT #%d fails at packet %d (%s) -> %s; then %s -> %s' % (
+                len(d1), j, packet, kind, r1, op2[0], r2)} if j == 1 else None)
+    ck.count('t2-sector-histories')
+    return nseq
+
+
+def sector_cases(ck, bt, pid, rng, nlay):
+    for i in range(nlay):
+        L = gen_sector_layout(rng, size8=(0x80 if i == 0 else None))
+        old = rnd(rng, rng.choice([0, 40, 300]))
+        d1 = rnd(rng, rng.choice([L.cap_expected, L.cap_expected - rng.randrange(0, 40), 1100]))
+        ops = [('write', rnd(rng, rng.choice([0, 5, 60]))), ('format', None), ('format', 0), ('write', rnd(rng, min(L.cap_expected, 1200)))]
+        nseq = sector_case(ck, bt, L, old, d1, 0, 0, 'none', ops[0], pid, rng)
+        for j in range(1, nseq + 1):
+            for packet, kind in (SS_KINDS if i == 0 else [rng.choice(SS_KINDS), rng.choice(SS_KINDS[4:])]):
+                sector_case(ck, bt, L, old, d1, j, packet, kind, rng.choice(ops if pid == 'C03' else [ops[0], ops[3]]), pid, rng)
+        bt.flush()
+
+
 def corpus(ck, bt, pid, rng):
     """minimised past failures"""
     # Type 2, static memory, NDEF TLV at 16
@@ -933,6 +1122,16 @@ def corpus(ck, bt, pid, rng):
             format_case(ck, bt, L, wipe)
     if pid in ('C01', 'C03'):
         write_case(ck, bt, L, b'', pid, rng)
+    # Topaz-512 style tag with TMS = 25h: 304 byte data area of a 512 byte memory, 258 usable bytes from the NDEF TLV at byte 22
+    # (seeded regression C03-d2: capacity must be 254, a message of capacity bytes must end inside the data area)
+    L = Layout()
+    L.kind, L.first, L.unit, L.off, L.dend, L.oneway, L.hr = 't1d', 12, 8, 22, 304, set(), bytes([0x12, 0x4C])
+    L.R = set(range(104, 128))
+    L.mem = bytearray(bytes([1, 2, 3, 4, 5, 6, 7, 0, 0xE1, 0x10, 0x25, 0]) + bytes.fromhex('0103F230330203F002030300') + bytes([0xA5] * 488))
+    L.cap_expected = 254
+    if pid in ('C01', 'C03'):
+        for n in (254, 255):
+            write_case(ck, bt, L, bytes((7 * i + 1) & 255 for i in range(n)), pid, rng)
     # Type 2, length byte is the last byte of page 4: an assignment whose commit command is executed but not answered, then
     # an assignment of other data on the same tag object (stale reader cache; repair c02-tlv-reader-reset-after-failed-write)
     L = Layout()
@@ -999,7 +1198,11 @@ def replay(ck, pid, mr, path):
         return False
     L = Layout.from_desc(case['layout'])
     bt = Batch(ck, mr)
-    if 'rewrite' in case:
+    if 'sector' in case:
+        r = case['sector']
+        op2 = ('write', bytes.fromhex(r['op2'][1])) if r['op2'][0] == 'write' else ('format', r['op2'][1])
+        sector_case(ck, bt, L, bytes.fromhex(case['old']), bytes.fromhex(r['d1']), r['j'], r['packet'], r['kind'], op2, pid, ck.rng)
+    elif 'rewrite' in case:
         r = case['rewrite']
         kind = [k for k in FAULT_KINDS if k.__name__ == r['kind']][0]
         rewrite_case(ck, L, bytes.fromhex(case['old']), bytes.fromhex(r['d1']), r['k1'], kind, r['executed'], bytes.fromhex(case['new']), pid, ck.rng, bt=bt)
@@ -1027,9 +1230,13 @@ def run(ck, pid, mr):
     bt = Batch(ck, mr)
     corpus(ck, bt, pid, rng)
     bt.flush()
+    if pid in ('C01', 'C03') and 't2' in KINDS:
+        sector_cases(ck, bt, pid, rng, 3 if quick else 20)
     for kind in KINDS:
         if pid in ('C01', 'C03'):
             end_of_area_cases(ck, bt, pid, rng, kind, 3 if quick else 12)
+            if kind != 't1s':
+                capacity_boundary_cases(ck, bt, pid, rng, kind, 1 if quick else 6)
             nlay = (250 if quick else 1500)
             for i in range(nlay):
                 L = gen_layout(rng, kind, big=(i % 12 == 0), tight=(pid == 'C03' and i % 3 == 0),
